@@ -1045,9 +1045,9 @@ def _cofactor(e, ctx):
     m = _mat_last(a, d)
     n = m.shape[-1]
     if n == 1:
-        one = ctx.B.zeros(m.shape)
-        one[(0,) * d] = ctx.B.scalar(1)
-        return V(_mat_front(one, d), 2, a.fi)
+        # UFL has no lowering for the cofactor of a 1x1 matrix ("cofactor_expr not implemented for dimension 1") and its
+        # constructor refuses a zero 1x1 operand: nothing the code promises, so nothing to judge
+        raise Unsupported("cofactor of a 1x1 matrix")
     rows = []
     for i in range(n):
         row = []
